@@ -670,6 +670,15 @@ fn res_of_json(r: RemoteResult<Value>, node: &str, path: &str) -> Res {
     }
 }
 
+/// `entry` is the fleet's node name, `listener` the name under which the fake node behind it answers.
+fn res_of_json_via(r: RemoteResult<Value>, entry: &str, listener: &str, path: &str) -> Res {
+    match (&r.value, &r.error) {
+        (Some(v), None) => Res::Value { good: r.node == entry && good_value(v, listener, path), text: v.to_string() },
+        (_, Some(e)) => classify_err(e),
+        (None, None) => Res::Other { variant: "EmptyRemoteResult".into(), text: "neither value nor error".into() },
+    }
+}
+
 fn res_of_msg(r: RemoteResult<Message>, node: &str, path: &str) -> Res {
     match (&r.value, &r.error) {
         (Some(m), None) => {
@@ -1450,6 +1459,7 @@ struct TagOut {
     node_requests: u64,
     down_node_cases: u64,
     histories: u64,
+    big_fleet_broadcasts: u64,
     history_broadcasts: u64,
     findings: Vec<(String, String, Value)>,
     inconclusive: Vec<String>,
@@ -1569,6 +1579,74 @@ fn run_tag_config(kind: Kind, cfg: &TagCfg, cfg_idx: usize, nodes: &[Arc<FakeNod
             _ => {}
         }
         one_broadcast(kind, &fleet, rt, nodes, &member_tags, &qq, *down, reduce, with_params, &Value::Null, "", out);
+    }
+}
+
+/// Larger fleets (the statement does not bound the node count): N node entries with distinct names share the worker's four
+/// fake listeners (entry i -> listener i % 4; a listener serves any number of connections). One result per addressed entry,
+/// none for the others, and every listener receives exactly as many requests as it has addressed entries.
+fn run_big_fleet(kind: Kind, seed: u64, nodes: &[Arc<FakeNode>], rt: &tokio::runtime::Runtime, out: &mut TagOut) {
+    let mut r = Rng::new(seed ^ 0xC19_B16);
+    let n = *r.pick(&[5usize, 8, 15, 16, 17, 18, 23, 31, 32, 33, 40, 47, 48, 49, 64, 65]);
+    let universe: [&'static str; 2] = ["a", "b"];
+    let subs = subsets(&universe);
+    let tags: Vec<Vec<&'static str>> = (0..n).map(|_| subs[r.usize_below(subs.len())].clone()).collect();
+    let timeout = Duration::from_secs(8);
+    let names: Vec<String> = (0..n).map(|i| format!("big{i:02}")).collect();
+    let cfgs: Vec<NodeConfig> = (0..n).map(|i| node_config(&names[i], nodes[i % nodes.len()].port, &tags[i], timeout)).collect();
+    let opts = FleetOptions { default_timeout: timeout, retry_policy: RetryPolicy { max_attempts: 1, delay: Duration::from_millis(1) } };
+    let fleet = match kind {
+        Kind::Sync => AnyFleet::Sync(Fleet::with_options(cfgs, opts).expect("fleet")),
+        Kind::Async => AnyFleet::Async(AsyncFleet::with_options(cfgs, opts).expect("fleet")),
+    };
+    for nd in nodes {
+        nd.reset(0);
+    }
+    let k = kind.name();
+    // the fake listener behind entry "bigNN" answers under its own name "node<NN % 4>"
+    let nl = nodes.len();
+    let listener_of = move |entry: &str| -> String { format!("node{}", entry.trim_start_matches("big").parse::<usize>().unwrap_or(0) % nl) };
+    for (qi, q) in [vec![], vec!["a"], vec!["b", "a"]].iter().enumerate() {
+        let reduce = (qi as u64 + seed) % 2 == 0;
+        let path = format!("/c19b/{}", TOKEN.fetch_add(1, Ordering::Relaxed));
+        let params = json!({"tok": path});
+        let results: Vec<(String, Res)> = match (&fleet, reduce) {
+            (AnyFleet::Sync(f), false) => f.broadcast_json(&path, Some(&params), q).into_iter().map(|(name, r)| { let (en, nm) = (r.node.clone(), listener_of(&r.node)); (name, res_of_json_via(r, &en, &nm, &path)) }).collect(),
+            (AnyFleet::Sync(f), true) => f.map_reduce_json(&path, Some(&params), q, |rs| rs.into_iter().map(|r| { let (en, nm) = (r.node.clone(), listener_of(&r.node)); (en.clone(), res_of_json_via(r, &en, &nm, &path)) }).collect()),
+            (AnyFleet::Async(f), false) => rt.block_on(f.broadcast_json(&path, Some(&params), q)).into_iter().map(|(name, r)| { let (en, nm) = (r.node.clone(), listener_of(&r.node)); (name, res_of_json_via(r, &en, &nm, &path)) }).collect(),
+            (AnyFleet::Async(f), true) => rt.block_on(f.map_reduce_json(&path, Some(&params), q, |rs| rs.into_iter().map(|r| { let (en, nm) = (r.node.clone(), listener_of(&r.node)); (en.clone(), res_of_json_via(r, &en, &nm, &path)) }).collect())),
+        };
+        out.evals += 1;
+        out.broadcasts += 1;
+        out.big_fleet_broadcasts += 1;
+        out.distinct.push(hash_of(&("big", k, n, q, reduce)));
+        let want: BTreeSet<String> = (0..n).filter(|&i| q.iter().all(|t| tags[i].contains(t))).map(|i| names[i].clone()).collect();
+        let got: BTreeSet<String> = results.iter().map(|(nm, _)| nm.clone()).collect();
+        let scenario = json!({"part": "big-fleet", "kind": k, "nodes": n, "requested": q, "via": if reduce {"map_reduce_json"} else {"broadcast_json"}, "seed": seed});
+        let ctx = format!("{k} fleet of {n} node entries, requested {q:?} via {}", if reduce { "map_reduce_json" } else { "broadcast_json" });
+        if got != want || results.len() != want.len() {
+            let missing: Vec<&String> = want.difference(&got).take(6).collect();
+            let extra: Vec<&String> = got.difference(&want).take(6).collect();
+            out.findings.push((format!("C19:broadcast-result-count:{k}:large-fleet"), format!("{} results for {} addressed nodes — {ctx}; missing {missing:?}, unexpected {extra:?}", results.len(), want.len()), scenario.clone()));
+        }
+        for (name, res) in &results {
+            out.results_checked += 1;
+            if !res.is_ok() {
+                if res.io_kind() == Some("TimedOut") {
+                    out.inconclusive.push(format!("a healthy broadcast target timed out after 8 s ({ctx})"));
+                } else {
+                    out.findings.push((format!("C19:broadcast-wrong-result:{k}:large-fleet"), format!("result of {name} is {} — {ctx}", res.long()), scenario.clone()));
+                }
+            }
+        }
+        for (li, nd) in nodes.iter().enumerate() {
+            let got_n = drain_paths(nd).into_iter().filter(|p| *p == path).count();
+            out.node_requests += got_n as u64;
+            let want_n = (0..n).filter(|&i| i % nodes.len() == li && want.contains(&names[i])).count();
+            if got_n != want_n {
+                out.findings.push((format!("C19:broadcast-request-count:{k}:large-fleet"), format!("listener {li} received {got_n} requests for this broadcast, {want_n} of its entries were addressed — {ctx}"), scenario.clone()));
+            }
+        }
     }
 }
 
@@ -1726,6 +1804,9 @@ fn run_tags(args: &Args) -> Report {
                 if idx < histories {
                     // dynamic-membership histories first: they are the cheap part and must not be starved by the budget
                     run_tag_history(kind, seed.wrapping_mul(1_000_003).wrapping_add(idx as u64), &nodes, &rt, &mut out);
+                    if idx % 10 < 2 {
+                        run_big_fleet(kind, seed.wrapping_mul(1_000_003).wrapping_add(idx as u64), &nodes, &rt, &mut out);
+                    }
                 } else {
                     let idx = idx - histories;
                     run_tag_config(kind, &cfgs[idx / 2], idx / 2, &nodes, &rt, &mut out);
@@ -1750,6 +1831,7 @@ fn run_tags(args: &Args) -> Report {
         rep.count("node_side_requests_matched", o.node_requests);
         rep.count("passes_with_a_node_down", o.down_node_cases);
         rep.count("membership_histories_completed", o.histories);
+        rep.count("broadcasts_to_fleets_of_5_to_65_nodes", o.big_fleet_broadcasts);
         rep.count("broadcasts_inside_membership_histories", o.history_broadcasts);
         for (sig, detail, sc) in o.findings {
             rep.violation(sig, detail, sc);
